@@ -1,0 +1,552 @@
+//go:build verif
+
+package kbin
+
+// Verification contracts (comments only). This file is compiled only with -tags verif and
+// contains no code; the directives are read by /verif/govc.
+//
+// Conventions: "mode int bv" verifies a function twice, once with mathematical integers made to wrap
+// exactly (shape: lengths, prefixes, frames, bounds) and once with bit-vectors (byte values); a
+// clause tagged [int] or [bv] is checked in that mode only and assumed by callers in either.
+
+// ---- specification functions (written from the Kafka protocol guide, not from the code) ----
+
+//@ spec zz32(i int32) uint32 = (uint32(i) << 1) ^ uint32(i >> 31)
+//@ spec unzz32(x uint32) int32 = int32(x >> 1) ^ -int32(x & 1)
+//@ spec zz64(i int64) uint64 = (uint64(i) << 1) ^ uint64(i >> 63)
+//@ spec unzz64(x uint64) int64 = int64(x >> 1) ^ -int64(x & 1)
+//@ spec uvlen32(u uint32) int = ite(u < 1<<7, 1, ite(u < 1<<14, 2, ite(u < 1<<21, 3, ite(u < 1<<28, 4, 5))))
+//@ spec uvlen64(u uint64) int = ite(u < 1<<7, 1, ite(u < 1<<14, 2, ite(u < 1<<21, 3, ite(u < 1<<28, 4, ite(u < 1<<35, 5,
+//@      ite(u < 1<<42, 6, ite(u < 1<<49, 7, ite(u < 1<<56, 8, ite(u < 1<<63, 9, 10)))))))))
+//@ spec uvbyte32(u uint32, k int) byte = byte((u >> uint(7*k)) & 0x7f) | ite(k < uvlen32(u)-1, byte(0x80), byte(0))
+//@ spec uvbyte64(u uint64, k int) byte = byte((u >> uint(7*k)) & 0x7f) | ite(k < uvlen64(u)-1, byte(0x80), byte(0))
+
+// Decoder specification: number of bytes consumed by a base-128 varint of at most 5 (10) bytes,
+// 0 when the input is too short, -5 (-10) when the last byte overflows 32 (64) bits.
+//@ spec uvN(in []byte) int = ite(len(in) < 1, 0, ite(in[0] < 0x80, 1, ite(len(in) < 2, 0, ite(in[1] < 0x80, 2,
+//@      ite(len(in) < 3, 0, ite(in[2] < 0x80, 3, ite(len(in) < 4, 0, ite(in[3] < 0x80, 4,
+//@      ite(len(in) < 5, 0, ite(in[4] <= 0x0f, 5, -5))))))))))
+//@ spec uvX(in []byte) uint32 = ite(uvN(in) < 1, 0, uint32(in[0]&0x7f)
+//@      | ite(uvN(in) < 2, 0, uint32(in[1]&0x7f) << 7) | ite(uvN(in) < 3, 0, uint32(in[2]&0x7f) << 14)
+//@      | ite(uvN(in) < 4, 0, uint32(in[3]&0x7f) << 21) | ite(uvN(in) < 5, 0, uint32(in[4]) << 28))
+//@ spec uvN64(in []byte) int = ite(len(in) < 1, 0, ite(in[0] < 0x80, 1, ite(len(in) < 2, 0, ite(in[1] < 0x80, 2,
+//@      ite(len(in) < 3, 0, ite(in[2] < 0x80, 3, ite(len(in) < 4, 0, ite(in[3] < 0x80, 4,
+//@      ite(len(in) < 5, 0, ite(in[4] < 0x80, 5, ite(len(in) < 6, 0, ite(in[5] < 0x80, 6,
+//@      ite(len(in) < 7, 0, ite(in[6] < 0x80, 7, ite(len(in) < 8, 0, ite(in[7] < 0x80, 8,
+//@      ite(len(in) < 9, 0, ite(in[8] < 0x80, 9, ite(len(in) < 10, 0, ite(in[9] <= 1, 10, -10))))))))))))))))))))
+//@ spec uvX64(in []byte) uint64 = ite(uvN64(in) < 1, 0, uint64(in[0]&0x7f)
+//@      | ite(uvN64(in) < 2, 0, uint64(in[1]&0x7f) << 7) | ite(uvN64(in) < 3, 0, uint64(in[2]&0x7f) << 14)
+//@      | ite(uvN64(in) < 4, 0, uint64(in[3]&0x7f) << 21) | ite(uvN64(in) < 5, 0, uint64(in[4]&0x7f) << 28)
+//@      | ite(uvN64(in) < 6, 0, uint64(in[5]&0x7f) << 35) | ite(uvN64(in) < 7, 0, uint64(in[6]&0x7f) << 42)
+//@      | ite(uvN64(in) < 8, 0, uint64(in[7]&0x7f) << 49) | ite(uvN64(in) < 9, 0, uint64(in[8]&0x7f) << 56)
+//@      | ite(uvN64(in) < 10, 0, uint64(in[9]) << 63))
+
+//@ spec be16at(s []byte, o int) uint16 = uint16(s[o])<<8 | uint16(s[o+1])
+//@ spec be32at(s []byte, o int) uint32 = uint32(s[o])<<24 | uint32(s[o+1])<<16 | uint32(s[o+2])<<8 | uint32(s[o+3])
+//@ spec be64at(s []byte, o int) uint64 = uint64(s[o])<<56 | uint64(s[o+1])<<48 | uint64(s[o+2])<<40 | uint64(s[o+3])<<32
+//@      | uint64(s[o+4])<<24 | uint64(s[o+5])<<16 | uint64(s[o+6])<<8 | uint64(s[o+7])
+
+// ---- length functions ----
+
+//@ func UvarintLen(u uint32) (n int)
+//@   mode bv int
+//@   prop C17
+//@   nopanic
+//@   pure
+//@   ensures n == uvlen32(u)
+
+//@ func VarintLen(i int32) (n int)
+//@   mode bv
+//@   prop C17
+//@   nopanic
+//@   pure
+//@   ensures n == uvlen32(zz32(i))
+
+//@ func uvarlongLen(u uint64) (n int)
+//@   mode bv int
+//@   prop C17
+//@   nopanic
+//@   pure
+//@   ensures n == uvlen64(u)
+
+//@ func VarlongLen(i int64) (n int)
+//@   mode bv
+//@   prop C17
+//@   nopanic
+//@   pure
+//@   ensures n == uvlen64(zz64(i))
+
+// ---- decoders ----
+
+//@ func Uvarint(in []byte) (x uint32, n int)
+//@   mode bv
+//@   prop C17 C16
+//@   nopanic
+//@   pure
+//@   ensures n == uvN(in)
+//@   ensures x == uvX(in)
+
+//@ func Varint(in []byte) (v int32, n int)
+//@   mode bv
+//@   prop C17 C16
+//@   nopanic
+//@   pure
+//@   ensures n == uvN(in)
+//@   ensures v == unzz32(uvX(in))
+
+//@ func uvarlong(in []byte) (x uint64, n int)
+//@   mode bv
+//@   prop C17 C16
+//@   nopanic
+//@   pure
+//@   ensures n == uvN64(in)
+//@   ensures x == uvX64(in)
+
+//@ func Varlong(in []byte) (v int64, n int)
+//@   mode bv
+//@   prop C17 C16
+//@   nopanic
+//@   pure
+//@   ensures n == uvN64(in)
+//@   ensures v == unzz64(uvX64(in))
+
+// ---- lemmas over the specification: decode(encode(x)) == x ----
+
+//@ lemma zigzag32_inverse: forall i int32 :: unzz32(zz32(i)) == i
+//@   mode bv
+//@   prop C17
+//@ lemma zigzag64_inverse: forall i int64 :: unzz64(zz64(i)) == i
+//@   mode bv
+//@   prop C17
+//@ lemma uvarint_roundtrip: forall in []byte :: forall u uint32 ::
+//@      (len(in) >= uvlen32(u) && (forall k in 0..5 :: k < uvlen32(u) ==> in[k] == uvbyte32(u, k)))
+//@      ==> (uvN(in) == uvlen32(u) && uvX(in) == u)
+//@   mode bv
+//@   prop C17
+//@ lemma uvarlong_roundtrip: forall in []byte :: forall u uint64 ::
+//@      (len(in) >= uvlen64(u) && (forall k in 0..10 :: k < uvlen64(u) ==> in[k] == uvbyte64(u, k)))
+//@      ==> (uvN64(in) == uvlen64(u) && uvX64(in) == u)
+//@   mode bv
+//@   prop C17
+
+// ---- encoders: out == dst ++ encoding; dst's prefix is preserved; only dst's spare capacity is written ----
+
+//@ func AppendBool(dst []byte, v bool) (out []byte)
+//@   mode int bv
+//@   prop C17
+//@   nopanic
+//@   modifies elems(dst)
+//@   ensures [int] (sameorigin(out, dst) && cap(out) == cap(dst)) || fresh(out)
+//@   ensures [int] len(out) == len(dst) + 1
+//@   ensures [int] forall k in 0..len(dst) :: out[k] == old(dst[k])
+//@   ensures out[len(dst)] == ite(v, byte(1), byte(0))
+
+//@ func AppendInt8(dst []byte, i int8) (out []byte)
+//@   mode int bv
+//@   prop C17
+//@   nopanic
+//@   modifies elems(dst)
+//@   ensures [int] (sameorigin(out, dst) && cap(out) == cap(dst)) || fresh(out)
+//@   ensures [int] len(out) == len(dst) + 1
+//@   ensures [int] forall k in 0..len(dst) :: out[k] == old(dst[k])
+//@   ensures [bv] out[len(dst)] == byte(i)
+
+//@ func AppendUint16(dst []byte, u uint16) (out []byte)
+//@   mode int bv
+//@   prop C17
+//@   nopanic
+//@   modifies elems(dst)
+//@   ensures [int] (sameorigin(out, dst) && cap(out) == cap(dst)) || fresh(out)
+//@   ensures [int] len(out) == len(dst) + 2
+//@   ensures [int] forall k in 0..len(dst) :: out[k] == old(dst[k])
+//@   ensures [bv] be16at(out, len(dst)) == u
+
+//@ func AppendInt16(dst []byte, i int16) (out []byte)
+//@   mode int bv
+//@   prop C17
+//@   nopanic
+//@   modifies elems(dst)
+//@   ensures [int] (sameorigin(out, dst) && cap(out) == cap(dst)) || fresh(out)
+//@   ensures [int] len(out) == len(dst) + 2
+//@   ensures [int] forall k in 0..len(dst) :: out[k] == old(dst[k])
+//@   ensures [bv] be16at(out, len(dst)) == uint16(i)
+
+//@ func AppendUint32(dst []byte, u uint32) (out []byte)
+//@   mode int bv
+//@   prop C17
+//@   nopanic
+//@   modifies elems(dst)
+//@   ensures [int] (sameorigin(out, dst) && cap(out) == cap(dst)) || fresh(out)
+//@   ensures [int] len(out) == len(dst) + 4
+//@   ensures [int] forall k in 0..len(dst) :: out[k] == old(dst[k])
+//@   ensures [bv] be32at(out, len(dst)) == u
+
+//@ func AppendInt32(dst []byte, i int32) (out []byte)
+//@   mode int bv
+//@   prop C17
+//@   nopanic
+//@   modifies elems(dst)
+//@   ensures [int] (sameorigin(out, dst) && cap(out) == cap(dst)) || fresh(out)
+//@   ensures [int] len(out) == len(dst) + 4
+//@   ensures [int] forall k in 0..len(dst) :: out[k] == old(dst[k])
+//@   ensures [bv] be32at(out, len(dst)) == uint32(i)
+
+//@ func appendUint64(dst []byte, u uint64) (out []byte)
+//@   mode int bv
+//@   prop C17
+//@   nopanic
+//@   modifies elems(dst)
+//@   ensures [int] (sameorigin(out, dst) && cap(out) == cap(dst)) || fresh(out)
+//@   ensures [int] len(out) == len(dst) + 8
+//@   ensures [int] forall k in 0..len(dst) :: out[k] == old(dst[k])
+//@   ensures [bv] be64at(out, len(dst)) == u
+
+//@ func AppendInt64(dst []byte, i int64) (out []byte)
+//@   mode int bv
+//@   prop C17
+//@   nopanic
+//@   modifies elems(dst)
+//@   ensures [int] (sameorigin(out, dst) && cap(out) == cap(dst)) || fresh(out)
+//@   ensures [int] len(out) == len(dst) + 8
+//@   ensures [int] forall k in 0..len(dst) :: out[k] == old(dst[k])
+//@   ensures [bv] be64at(out, len(dst)) == uint64(i)
+
+//@ func AppendUvarint(dst []byte, u uint32) (out []byte)
+//@   mode int bv
+//@   prop C17
+//@   nopanic
+//@   modifies elems(dst)
+//@   ensures [int] (sameorigin(out, dst) && cap(out) == cap(dst)) || fresh(out)
+//@   ensures [int] len(out) == len(dst) + uvlen32(u)
+//@   ensures [int] forall k in 0..len(dst) :: out[k] == old(dst[k])
+//@   ensures [bv] forall k in 0..5 :: k < uvlen32(u) ==> out[len(dst)+k] == uvbyte32(u, k)
+
+//@ func AppendVarint(dst []byte, i int32) (out []byte)
+//@   mode int bv
+//@   prop C17
+//@   nopanic
+//@   modifies elems(dst)
+//@   ensures [int] (sameorigin(out, dst) && cap(out) == cap(dst)) || fresh(out)
+//@   ensures [bv] len(out) == len(dst) + uvlen32(zz32(i))
+//@   ensures [int] forall k in 0..len(dst) :: out[k] == old(dst[k])
+//@   ensures [bv] forall k in 0..5 :: k < uvlen32(zz32(i)) ==> out[len(dst)+k] == uvbyte32(zz32(i), k)
+
+//@ func appendUvarlong(dst []byte, u uint64) (out []byte)
+//@   mode int bv
+//@   prop C17
+//@   nopanic
+//@   modifies elems(dst)
+//@   ensures [int] (sameorigin(out, dst) && cap(out) == cap(dst)) || fresh(out)
+//@   ensures [int] len(out) == len(dst) + uvlen64(u)
+//@   ensures [int] forall k in 0..len(dst) :: out[k] == old(dst[k])
+//@   ensures [bv] forall k in 0..10 :: k < uvlen64(u) ==> out[len(dst)+k] == uvbyte64(u, k)
+
+//@ func AppendVarlong(dst []byte, i int64) (out []byte)
+//@   mode int bv
+//@   prop C17
+//@   nopanic
+//@   modifies elems(dst)
+//@   ensures [int] (sameorigin(out, dst) && cap(out) == cap(dst)) || fresh(out)
+//@   ensures [bv] len(out) == len(dst) + uvlen64(zz64(i))
+//@   ensures [int] forall k in 0..len(dst) :: out[k] == old(dst[k])
+//@   ensures [bv] forall k in 0..10 :: k < uvlen64(zz64(i)) ==> out[len(dst)+k] == uvbyte64(zz64(i), k)
+
+// ---- length-prefixed encoders (composition of the above through their contracts) ----
+
+//@ func AppendString(dst []byte, s string) (out []byte)
+//@   mode int bv
+//@   prop C17
+//@   nopanic
+//@   modifies elems(dst)
+//@   ensures [int] (sameorigin(out, dst) && cap(out) == cap(dst)) || fresh(out)
+//@   ensures [int] len(out) == len(dst) + 2 + len(s)
+//@   ensures [int] forall k in 0..len(dst) :: out[k] == old(dst[k])
+//@   ensures [int] forall j in 0..len(s) :: out[len(dst)+2+j] == s[j]
+//@   ensures [bv] be16at(out, len(dst)) == uint16(int16(len(s)))
+
+//@ func AppendCompactString(dst []byte, s string) (out []byte)
+//@   mode int bv
+//@   prop C17
+//@   nopanic
+//@   modifies elems(dst)
+//@   ensures [int] (sameorigin(out, dst) && cap(out) == cap(dst)) || fresh(out)
+//@   ensures [int] len(out) == len(dst) + uvlen32(1+uint32(len(s))) + len(s)
+//@   ensures [int] forall k in 0..len(dst) :: out[k] == old(dst[k])
+//@   ensures [int] forall j in 0..len(s) :: out[len(dst)+uvlen32(1+uint32(len(s)))+j] == s[j]
+//@   ensures [int] forall k in 0..5 :: k < uvlen32(1+uint32(len(s))) ==> out[len(dst)+k] == uvbyte32(1+uint32(len(s)), k)
+
+//@ func AppendBytes(dst []byte, b []byte) (out []byte)
+//@   mode int bv
+//@   requires disjoint(b, dst)     // b must not live in dst's spare capacity (it would be overwritten by the length)
+//@   prop C17
+//@   nopanic
+//@   modifies elems(dst)
+//@   ensures [int] (sameorigin(out, dst) && cap(out) == cap(dst)) || fresh(out)
+//@   ensures [int] len(out) == len(dst) + 4 + len(b)
+//@   ensures [int] forall k in 0..len(dst) :: out[k] == old(dst[k])
+//@   ensures [int] forall j in 0..len(b) :: out[len(dst)+4+j] == old(b[j])
+//@   ensures [bv] be32at(out, len(dst)) == uint32(int32(len(b)))
+
+//@ func AppendCompactBytes(dst []byte, b []byte) (out []byte)
+//@   mode int bv
+//@   requires disjoint(b, dst)
+//@   prop C17
+//@   nopanic
+//@   modifies elems(dst)
+//@   ensures [int] (sameorigin(out, dst) && cap(out) == cap(dst)) || fresh(out)
+//@   ensures [int] len(out) == len(dst) + uvlen32(1+uint32(len(b))) + len(b)
+//@   ensures [int] forall k in 0..len(dst) :: out[k] == old(dst[k])
+//@   ensures [int] forall j in 0..len(b) :: out[len(dst)+uvlen32(1+uint32(len(b)))+j] == old(b[j])
+//@   ensures [int] forall k in 0..5 :: k < uvlen32(1+uint32(len(b))) ==> out[len(dst)+k] == uvbyte32(1+uint32(len(b)), k)
+
+//@ func AppendNullableBytes(dst []byte, b []byte) (out []byte)
+//@   mode int bv
+//@   requires disjoint(b, dst)
+//@   prop C17
+//@   nopanic
+//@   modifies elems(dst)
+//@   ensures [int] (sameorigin(out, dst) && cap(out) == cap(dst)) || fresh(out)
+//@   ensures [int] b == nil ==> len(out) == len(dst) + 4
+//@   ensures [bv] b == nil ==> be32at(out, len(dst)) == 0xffffffff
+//@   ensures [int] b != nil ==> len(out) == len(dst) + 4 + len(b)
+//@   ensures [int] forall k in 0..len(dst) :: out[k] == old(dst[k])
+//@   ensures [int] b != nil ==> forall j in 0..len(b) :: out[len(dst)+4+j] == old(b[j])
+//@   ensures [bv] b != nil ==> be32at(out, len(dst)) == uint32(int32(len(b)))
+
+//@ func AppendVarintBytes(dst []byte, b []byte) (out []byte)
+//@   mode int bv
+//@   requires disjoint(b, dst)
+//@   prop C17
+//@   nopanic
+//@   modifies elems(dst)
+//@   ensures [int] (sameorigin(out, dst) && cap(out) == cap(dst)) || fresh(out)
+//@   ensures [bv] b == nil ==> len(out) == len(dst) + 1
+//@   ensures [bv] b == nil ==> out[len(dst)] == 1
+//@   ensures [bv] b != nil ==> len(out) == len(dst) + uvlen32(zz32(int32(len(b)))) + len(b)
+//@   ensures [int] forall k in 0..len(dst) :: out[k] == old(dst[k])
+
+//@ func AppendArrayLen(dst []byte, l int) (out []byte)
+//@   mode int bv
+//@   prop C17
+//@   nopanic
+//@   modifies elems(dst)
+//@   ensures [int] (sameorigin(out, dst) && cap(out) == cap(dst)) || fresh(out)
+//@   ensures [int] len(out) == len(dst) + 4
+//@   ensures [int] forall k in 0..len(dst) :: out[k] == old(dst[k])
+//@   ensures [bv] be32at(out, len(dst)) == uint32(int32(l))
+
+//@ func AppendCompactArrayLen(dst []byte, l int) (out []byte)
+//@   mode int bv
+//@   prop C17
+//@   nopanic
+//@   modifies elems(dst)
+//@   ensures [int] (sameorigin(out, dst) && cap(out) == cap(dst)) || fresh(out)
+//@   ensures [int] len(out) == len(dst) + uvlen32(1+uint32(l))
+//@   ensures [int] forall k in 0..len(dst) :: out[k] == old(dst[k])
+//@   ensures [bv] forall k in 0..5 :: k < uvlen32(1+uint32(l)) ==> out[len(dst)+k] == uvbyte32(1+uint32(l), k)
+
+//@ func AppendNullableArrayLen(dst []byte, l int, isNil bool) (out []byte)
+//@   mode int bv
+//@   prop C17
+//@   nopanic
+//@   modifies elems(dst)
+//@   ensures [int] (sameorigin(out, dst) && cap(out) == cap(dst)) || fresh(out)
+//@   ensures [int] len(out) == len(dst) + 4
+//@   ensures [int] forall k in 0..len(dst) :: out[k] == old(dst[k])
+//@   ensures [bv] be32at(out, len(dst)) == ite(isNil, 0xffffffff, uint32(int32(l)))
+
+//@ func AppendCompactNullableArrayLen(dst []byte, l int, isNil bool) (out []byte)
+//@   mode int bv
+//@   prop C17
+//@   nopanic
+//@   modifies elems(dst)
+//@   ensures [int] (sameorigin(out, dst) && cap(out) == cap(dst)) || fresh(out)
+//@   ensures [int] isNil ==> len(out) == len(dst) + 1
+//@   ensures [bv] isNil ==> out[len(dst)] == 0
+//@   ensures [int] !isNil ==> len(out) == len(dst) + uvlen32(1+uint32(l))
+//@   ensures [int] forall k in 0..len(dst) :: out[k] == old(dst[k])
+//@   ensures [bv] !isNil ==> forall k in 0..5 :: k < uvlen32(1+uint32(l)) ==> out[len(dst)+k] == uvbyte32(1+uint32(l), k)
+
+// ---- Reader: every method either consumes exactly its encoding or poisons the reader ----
+
+//@ func (b *Reader) Bool() (r bool)
+//@   mode bv
+//@   prop C17 C16
+//@   nopanic
+//@   modifies b.Src, b.bad
+//@   ensures old(len(b.Src)) < 1 ==> b.bad && b.Src == nil && !r
+//@   ensures old(len(b.Src)) >= 1 ==> b.bad == old(b.bad) && b.Src == old(b.Src[1:]) && r == (old(b.Src[0]) != 0)
+
+//@ func (b *Reader) Int8() (r int8)
+//@   mode bv
+//@   prop C17 C16
+//@   nopanic
+//@   modifies b.Src, b.bad
+//@   ensures old(len(b.Src)) < 1 ==> b.bad && b.Src == nil && r == 0
+//@   ensures old(len(b.Src)) >= 1 ==> b.bad == old(b.bad) && b.Src == old(b.Src[1:]) && r == int8(old(b.Src[0]))
+
+//@ func (b *Reader) Int16() (r int16)
+//@   mode bv
+//@   prop C17 C16
+//@   nopanic
+//@   modifies b.Src, b.bad
+//@   ensures old(len(b.Src)) < 2 ==> b.bad && b.Src == nil && r == 0
+//@   ensures old(len(b.Src)) >= 2 ==> b.bad == old(b.bad) && b.Src == old(b.Src[2:]) && r == int16(old(be16at(b.Src, 0)))
+
+//@ func (b *Reader) Uint16() (r uint16)
+//@   mode bv
+//@   prop C17 C16
+//@   nopanic
+//@   modifies b.Src, b.bad
+//@   ensures old(len(b.Src)) < 2 ==> b.bad && b.Src == nil && r == 0
+//@   ensures old(len(b.Src)) >= 2 ==> b.bad == old(b.bad) && b.Src == old(b.Src[2:]) && r == old(be16at(b.Src, 0))
+
+//@ func (b *Reader) Int32() (r int32)
+//@   mode bv
+//@   prop C17 C16
+//@   nopanic
+//@   modifies b.Src, b.bad
+//@   ensures old(len(b.Src)) < 4 ==> b.bad && b.Src == nil && r == 0
+//@   ensures old(len(b.Src)) >= 4 ==> b.bad == old(b.bad) && b.Src == old(b.Src[4:]) && r == int32(old(be32at(b.Src, 0)))
+
+//@ func (b *Reader) Uint32() (r uint32)
+//@   mode bv
+//@   prop C17 C16
+//@   nopanic
+//@   modifies b.Src, b.bad
+//@   ensures old(len(b.Src)) < 4 ==> b.bad && b.Src == nil && r == 0
+//@   ensures old(len(b.Src)) >= 4 ==> b.bad == old(b.bad) && b.Src == old(b.Src[4:]) && r == old(be32at(b.Src, 0))
+
+//@ func (b *Reader) readUint64() (r uint64)
+//@   mode bv
+//@   prop C17 C16
+//@   nopanic
+//@   modifies b.Src, b.bad
+//@   ensures old(len(b.Src)) < 8 ==> b.bad && b.Src == nil && r == 0
+//@   ensures old(len(b.Src)) >= 8 ==> b.bad == old(b.bad) && b.Src == old(b.Src[8:]) && r == old(be64at(b.Src, 0))
+
+//@ func (b *Reader) Int64() (r int64)
+//@   mode bv
+//@   prop C17 C16
+//@   nopanic
+//@   modifies b.Src, b.bad
+//@   ensures old(len(b.Src)) < 8 ==> b.bad && b.Src == nil && r == 0
+//@   ensures old(len(b.Src)) >= 8 ==> b.bad == old(b.bad) && b.Src == old(b.Src[8:]) && r == int64(old(be64at(b.Src, 0)))
+
+//@ func (b *Reader) Varint() (r int32)
+//@   mode bv
+//@   prop C17 C16
+//@   nopanic
+//@   modifies b.Src, b.bad
+//@   ensures old(uvN(b.Src)) <= 0 ==> b.bad && b.Src == nil && r == 0
+//@   ensures old(uvN(b.Src)) > 0 ==> b.bad == old(b.bad) && b.Src == old(b.Src[uvN(b.Src):]) && r == old(unzz32(uvX(b.Src)))
+
+//@ func (b *Reader) Uvarint() (r uint32)
+//@   mode bv
+//@   prop C17 C16
+//@   nopanic
+//@   modifies b.Src, b.bad
+//@   ensures old(uvN(b.Src)) <= 0 ==> b.bad && b.Src == nil && r == 0
+//@   ensures old(uvN(b.Src)) > 0 ==> b.bad == old(b.bad) && b.Src == old(b.Src[uvN(b.Src):]) && r == old(uvX(b.Src))
+
+//@ func (b *Reader) Varlong() (r int64)
+//@   mode bv
+//@   prop C17 C16
+//@   nopanic
+//@   modifies b.Src, b.bad
+//@   ensures old(uvN64(b.Src)) <= 0 ==> b.bad && b.Src == nil && r == 0
+//@   ensures old(uvN64(b.Src)) > 0 ==> b.bad == old(b.bad) && b.Src == old(b.Src[uvN64(b.Src):]) && r == old(unzz64(uvX64(b.Src)))
+
+//@ func (b *Reader) Span(l int) (s []byte)
+//@   mode bv
+//@   prop C17 C16
+//@   nopanic
+//@   modifies b.Src, b.bad
+//@   ensures (l < 0 || old(len(b.Src)) < l) ==> b.bad && b.Src == nil && s == nil
+//@   ensures (0 <= l && l <= old(len(b.Src))) ==> b.bad == old(b.bad) && s == old(b.Src[:l:l]) && b.Src == old(b.Src[l:])
+
+//@ func (b *Reader) Bytes() (s []byte)
+//@   mode bv
+//@   prop C17 C16
+//@   nopanic
+//@   modifies b.Src, b.bad
+//@   ensures len(b.Src) <= old(len(b.Src)) && (old(b.bad) ==> b.bad)
+//@   ensures len(s) <= old(len(b.Src))
+//@   ensures (old(len(b.Src)) >= 4 && int32(old(be32at(b.Src, 0))) >= 0 && int(int32(old(be32at(b.Src, 0)))) <= old(len(b.Src)) - 4)
+//@           ==> b.bad == old(b.bad) && s == old(b.Src[4:4+int(int32(be32at(b.Src, 0))):4+int(int32(be32at(b.Src, 0)))]) && len(b.Src) == old(len(b.Src)) - 4 - len(s)
+
+//@ func (b *Reader) NullableBytes() (s []byte)
+//@   mode bv
+//@   prop C17 C16
+//@   nopanic
+//@   modifies b.Src, b.bad
+//@   ensures len(b.Src) <= old(len(b.Src)) && (old(b.bad) ==> b.bad)
+//@   ensures len(s) <= old(len(b.Src))
+
+//@ func (b *Reader) CompactBytes() (s []byte)
+//@   mode bv
+//@   prop C17 C16
+//@   nopanic
+//@   modifies b.Src, b.bad
+//@   ensures len(b.Src) <= old(len(b.Src)) && (old(b.bad) ==> b.bad)
+//@   ensures len(s) <= old(len(b.Src))
+
+//@ func (b *Reader) CompactNullableBytes() (s []byte)
+//@   mode bv
+//@   prop C17 C16
+//@   nopanic
+//@   modifies b.Src, b.bad
+//@   ensures len(b.Src) <= old(len(b.Src)) && (old(b.bad) ==> b.bad)
+//@   ensures len(s) <= old(len(b.Src))
+
+//@ func (b *Reader) VarintBytes() (s []byte)
+//@   mode bv
+//@   prop C17 C16
+//@   nopanic
+//@   modifies b.Src, b.bad
+//@   ensures len(b.Src) <= old(len(b.Src)) && (old(b.bad) ==> b.bad)
+//@   ensures len(s) <= old(len(b.Src))
+
+// The array-length readers carry the allocation bound that decoders rely on (C16): a returned
+// length never exceeds the number of bytes left, so make([]T, n) is bounded by the input size.
+
+//@ func (b *Reader) ArrayLen() (r int32)
+//@   mode bv
+//@   prop C17 C16
+//@   nopanic
+//@   modifies b.Src, b.bad
+//@   ensures int(r) <= len(b.Src)
+//@   ensures len(b.Src) <= old(len(b.Src)) && (old(b.bad) ==> b.bad)
+//@   ensures (old(len(b.Src)) >= 4 && int(int32(old(be32at(b.Src, 0)))) <= old(len(b.Src)) - 4)
+//@           ==> b.bad == old(b.bad) && r == int32(old(be32at(b.Src, 0))) && b.Src == old(b.Src[4:])
+
+//@ func (b *Reader) VarintArrayLen() (r int32)
+//@   mode bv
+//@   prop C17 C16
+//@   nopanic
+//@   modifies b.Src, b.bad
+//@   ensures int(r) <= len(b.Src)
+//@   ensures len(b.Src) <= old(len(b.Src)) && (old(b.bad) ==> b.bad)
+
+//@ func (b *Reader) CompactArrayLen() (r int32)
+//@   mode bv
+//@   prop C17 C16
+//@   nopanic
+//@   modifies b.Src, b.bad
+//@   ensures int(r) <= len(b.Src)
+//@   ensures len(b.Src) <= old(len(b.Src)) && (old(b.bad) ==> b.bad)
+
+//@ func (b *Reader) Complete() (err error)
+//@   mode bv
+//@   prop C17 C16
+//@   nopanic
+//@   pure
+//@   ensures !b.bad ==> err == nil
+//@   ensures b.bad ==> err == ErrNotEnoughData
+
+//@ func (b *Reader) Ok() (ok bool)
+//@   mode bv
+//@   prop C17 C16
+//@   nopanic
+//@   pure
+//@   ensures ok <==> !b.bad
